@@ -233,6 +233,7 @@ UNIT = dict(
                'eras passed to alloc_hazard_era were read from the era clock after every era the thread published before (guard level: derived, not assumed)',
                'marked_ptr contract (unit mp) for the slot word and the guarded pointer',
                'dynamic strategy shape: at most two blocks (K and K slots) exist before the call'],
+  ctypes={'hint': 'struct hazard_era*'},      # C++ type names that the harness models under another name (for helpers that are followed automatically)
   sources=SOURCES, runs=RUNS,
   obligations={k: dict(deciding=True, text=v) for k, v in OBL.items()},
   loop_obligation={'ACQ': 'he.acquire.era_stable', 'AIE': 'he.acquire_if_equal.protects'},
